@@ -233,6 +233,7 @@ func (p *Proxy) Serve(l net.Listener) error {
 }
 
 func (p *Proxy) handleLoop(conn net.Conn) {
+	verifPoint("handleLoop:accepted")
 	p.connsMu.Lock()
 	p.conns.Add(1)
 	p.connsMu.Unlock()
